@@ -243,11 +243,11 @@ type Request struct {
 
 // Usage is what the kernel has measured for a URR.
 type Usage struct {
-	Trigger                uint32
-	TotVol, UlVol, DlVol   uint64
-	TotPkt, UlPkt, DlPkt   uint64
-	Start, End             time.Time
-	QueryRef               uint32
+	Trigger              uint32
+	TotVol, UlVol, DlVol uint64
+	TotPkt, UlPkt, DlPkt uint64
+	Start, End           time.Time
+	QueryRef             uint32
 }
 
 type Kernel struct {
@@ -257,6 +257,8 @@ type Kernel struct {
 	Log             []Request
 	Version         string
 	Latency         time.Duration
+	// PsLatency (nanoseconds) is added to requests on the periodic server's connection only; atomic because scripts change it while the kernel serves.
+	PsLatency atomic.Int64
 	// Fail, when set, decides the errno (0 = proceed) of a request before it takes effect.
 	Fail func(r *Request) int
 	// UsageFor overrides the usage returned for a URR.
@@ -265,8 +267,8 @@ type Kernel struct {
 	QuietDel func(k RuleKey) bool
 	counter  uint64
 	wg       sync.WaitGroup
-	closed  atomic.Bool
-	KeepLog bool
+	closed   atomic.Bool
+	KeepLog  bool
 }
 
 func New() (*Kernel, error) {
@@ -315,6 +317,9 @@ func (k *Kernel) serve(c *Conn, name string) {
 		if k.Latency > 0 {
 			time.Sleep(k.Latency)
 		}
+		if d := k.PsLatency.Load(); d > 0 && name == "ps" {
+			time.Sleep(time.Duration(d))
+		}
 		reply := k.handle(name, append([]byte(nil), buf[:n]...))
 		if reply != nil {
 			if err := c.kwrite(reply); err != nil {
@@ -361,22 +366,22 @@ type kindSpec struct {
 }
 
 var specs = map[int]kindSpec{
-	gtp5gnl.CMD_ADD_PDR: {"PDR", gtp5gnl.PDR_ID, 2, gtp5gnl.PDR_SEID},
-	gtp5gnl.CMD_DEL_PDR: {"PDR", gtp5gnl.PDR_ID, 2, gtp5gnl.PDR_SEID},
-	gtp5gnl.CMD_GET_PDR: {"PDR", gtp5gnl.PDR_ID, 2, gtp5gnl.PDR_SEID},
-	gtp5gnl.CMD_ADD_FAR: {"FAR", gtp5gnl.FAR_ID, 4, gtp5gnl.FAR_SEID},
-	gtp5gnl.CMD_DEL_FAR: {"FAR", gtp5gnl.FAR_ID, 4, gtp5gnl.FAR_SEID},
-	gtp5gnl.CMD_GET_FAR: {"FAR", gtp5gnl.FAR_ID, 4, gtp5gnl.FAR_SEID},
-	gtp5gnl.CMD_ADD_QER: {"QER", gtp5gnl.QER_ID, 4, gtp5gnl.QER_SEID},
-	gtp5gnl.CMD_DEL_QER: {"QER", gtp5gnl.QER_ID, 4, gtp5gnl.QER_SEID},
-	gtp5gnl.CMD_GET_QER: {"QER", gtp5gnl.QER_ID, 4, gtp5gnl.QER_SEID},
-	gtp5gnl.CMD_ADD_URR: {"URR", gtp5gnl.URR_ID, 4, gtp5gnl.URR_SEID},
-	gtp5gnl.CMD_DEL_URR: {"URR", gtp5gnl.URR_ID, 4, gtp5gnl.URR_SEID},
-	gtp5gnl.CMD_GET_URR: {"URR", gtp5gnl.URR_ID, 4, gtp5gnl.URR_SEID},
+	gtp5gnl.CMD_ADD_PDR:    {"PDR", gtp5gnl.PDR_ID, 2, gtp5gnl.PDR_SEID},
+	gtp5gnl.CMD_DEL_PDR:    {"PDR", gtp5gnl.PDR_ID, 2, gtp5gnl.PDR_SEID},
+	gtp5gnl.CMD_GET_PDR:    {"PDR", gtp5gnl.PDR_ID, 2, gtp5gnl.PDR_SEID},
+	gtp5gnl.CMD_ADD_FAR:    {"FAR", gtp5gnl.FAR_ID, 4, gtp5gnl.FAR_SEID},
+	gtp5gnl.CMD_DEL_FAR:    {"FAR", gtp5gnl.FAR_ID, 4, gtp5gnl.FAR_SEID},
+	gtp5gnl.CMD_GET_FAR:    {"FAR", gtp5gnl.FAR_ID, 4, gtp5gnl.FAR_SEID},
+	gtp5gnl.CMD_ADD_QER:    {"QER", gtp5gnl.QER_ID, 4, gtp5gnl.QER_SEID},
+	gtp5gnl.CMD_DEL_QER:    {"QER", gtp5gnl.QER_ID, 4, gtp5gnl.QER_SEID},
+	gtp5gnl.CMD_GET_QER:    {"QER", gtp5gnl.QER_ID, 4, gtp5gnl.QER_SEID},
+	gtp5gnl.CMD_ADD_URR:    {"URR", gtp5gnl.URR_ID, 4, gtp5gnl.URR_SEID},
+	gtp5gnl.CMD_DEL_URR:    {"URR", gtp5gnl.URR_ID, 4, gtp5gnl.URR_SEID},
+	gtp5gnl.CMD_GET_URR:    {"URR", gtp5gnl.URR_ID, 4, gtp5gnl.URR_SEID},
 	gtp5gnl.CMD_GET_REPORT: {"URR", gtp5gnl.URR_ID, 4, gtp5gnl.URR_SEID},
-	gtp5gnl.CMD_ADD_BAR: {"BAR", gtp5gnl.BAR_ID, 1, gtp5gnl.BAR_SEID},
-	gtp5gnl.CMD_DEL_BAR: {"BAR", gtp5gnl.BAR_ID, 1, gtp5gnl.BAR_SEID},
-	gtp5gnl.CMD_GET_BAR: {"BAR", gtp5gnl.BAR_ID, 1, gtp5gnl.BAR_SEID},
+	gtp5gnl.CMD_ADD_BAR:    {"BAR", gtp5gnl.BAR_ID, 1, gtp5gnl.BAR_SEID},
+	gtp5gnl.CMD_DEL_BAR:    {"BAR", gtp5gnl.BAR_ID, 1, gtp5gnl.BAR_SEID},
+	gtp5gnl.CMD_GET_BAR:    {"BAR", gtp5gnl.BAR_ID, 1, gtp5gnl.BAR_SEID},
 }
 
 func idOf(a Attr, n int) uint64 {
